@@ -320,7 +320,29 @@ def text_render(ctx: Ctx, I: Interp) -> None:
                       f"{ro}.replace({[short(x) for x in args[:2]]})", "the replacement is not `self._html.replace(self._deps_replace_pattern, <rendered tags>, 1)`")
         # sibling agreement with HTMLDocument._hoist_head_content: same listing, same as_html_tags arguments
         calls = [e for e in l.effects if e.kind == "call"]
-        lst = [e for e in calls if getattr(e.target, "qual", "") == "TagList.append" and e.value and isinstance(e.value[0], SNew) and e.value[0].args[:1] == ("script",)]
+        # what is added to the tag list, in order: append(x) == extend([x]); extend([]) adds nothing
+        class _Add:
+            def __init__(self, value: Any):
+                self.value = [value]
+        items_: List[Any] = []
+        maps_: List[Any] = []
+        for e in calls:
+            q_ = getattr(e.target, "qual", "")
+            if q_ == "TagList.append":
+                items_ += [_Add(v_) for v_ in (e.value or [])]
+            elif q_ == "TagList.extend" and e.value:
+                v_ = e.value[0]
+                if isinstance(v_, SList) and v_.mode == "concrete":
+                    for i_ in v_.items:
+                        if isinstance(i_, SSplat):
+                            maps_.append(_Add(i_.value))
+                        else:
+                            items_.append(_Add(i_))
+                elif isinstance(v_, (list, tuple)):
+                    items_ += [_Add(i_) for i_ in v_]
+                else:
+                    maps_.append(_Add(v_))
+        lst = [a_ for a_ in items_ if isinstance(a_.value[0], SNew) and a_.value[0].args[:1] == ("script",)]
         for e in lst:
             t = e.value[0]
             lt = listing_tokens(t.args[1], l) if len(t.args) > 1 else None
@@ -328,7 +350,7 @@ def text_render(ctx: Ctx, I: Interp) -> None:
                 and isinstance(lt[2], SObj) and (lt[2].meta.get("attr_of") or (None, None))[1] == "_deps"
             ctx.check(bool(ok), "C13.sibling", "same dependency listing as HTMLDocument puts in <head> (name[version];..., application/html-dependencies)", where,
                       f"listing {short(t)}", "the listing written by HTMLTextDocument differs from the one HTMLDocument writes: the two rendering routes are not equivalent")
-        ext = [e for e in calls if getattr(e.target, "qual", "") == "TagList.extend"]
+        ext = maps_
         okx = len(ext) == 1 and ext[0].value and isinstance(ext[0].value[0], SList) and ext[0].value[0].mode == "map"
         if ctx.check(bool(okx), "C13.sibling", "the dependency tags are as_html_tags(...) of every stored dependency, in order", where, f"extend {[short(e.value[0]) for e in ext]}",
                      "the dependency markup is not produced by as_html_tags for every stored dependency"):
